@@ -56,7 +56,21 @@ var vSchemaCorpus = []string{
 }
 
 func vTextFamily(tag string) []byte {
-	fam := zzverif.IntRange(tag+"family", 0, 1)
+	fam := zzverif.IntRange(tag+"family", 0, 2)
+	if fam == 2 {
+		// single-byte mutation: a corpus schema with ONE byte, at any position,
+		// replaced by an arbitrary byte (the rest of the text follows)
+		d := zzverif.IntRange(tag+"doc", 0, len(vSchemaCorpus)-1)
+		doc := []byte(vSchemaCorpus[d])
+		for k := 0; k+5 < len(doc); k++ {
+			// a mutated subject or pattern of a regex rule would need the regular
+			// expression engine on symbolic bytes (host code): outside the bound
+			zzverif.Assume(string(doc[k:k+5]) != "regex")
+		}
+		at := zzverif.IntRange(tag+"at", 0, len(doc)-1)
+		doc[at] = zzverif.Byte(tag + "byte")
+		return doc
+	}
 	if fam == 0 {
 		n := zzverif.IntRange(tag+"len", 0, zzverif.Bound("N", 3, 3))
 		return zzverif.Bytes(tag+"text", n)
